@@ -460,6 +460,7 @@ impl<'c> VisitMut for Rw<'c> {
                 }
                 if let syn::Pat::Type(pt) = &l.pat { // drop partially inferred annotations such as `Weak<_>`
                     if pt.ty.to_token_stream().to_string().contains('_') { l.pat = (*pt.pat).clone(); }
+                    else if let syn::Pat::Ident(pi) = &*pt.pat { let mut t = (*pt.ty).clone(); map_type(&mut t, self.cx); self.local_types.insert(pi.ident.to_string(), crate::util::tidy(&t.to_token_stream().to_string())); }
                 }
                 if let Some(init) = &mut l.init { if let Some((_, div)) = init.diverge.take() {
                     let pat = l.pat.clone(); let e = init.expr.clone();
@@ -883,4 +884,21 @@ pub fn insert_probes(b: &mut syn::Block, name: &str, em: &mut crate::emit::Emitt
     let st = p.mk("function entry".to_string());
     b.stmts.insert(0, st);
     let _ = name;
+}
+
+/// L1m: `&mut cap` -> `&mut *cap` for captures that the lifted function receives by mutable reference
+pub fn reborrow_mut_captures(block: &mut syn::Block, caps: &[String]) {
+    struct V<'a> { caps: &'a [String] }
+    impl<'a> VisitMut for V<'a> {
+        fn visit_expr_mut(&mut self, e: &mut Expr) {
+            syn::visit_mut::visit_expr_mut(self, e);
+            if let Expr::Reference(r) = e { if r.mutability.is_some() { if let Expr::Path(p) = &*r.expr { if let Some(id) = p.path.get_ident() { if self.caps.contains(&id.to_string()) {
+                let inner = (*r.expr).clone(); *r.expr = syn::parse_quote!(*#inner);
+            } } } } }
+        }
+        fn visit_macro_mut(&mut self, m: &mut syn::Macro) {
+            if is_pin_macro(m) { if let Ok(mut inner) = syn::parse2::<Expr>(m.tokens.clone()) { self.visit_expr_mut(&mut inner); m.tokens = quote::quote!(#inner); } }
+        }
+    }
+    V { caps }.visit_block_mut(block);
 }
